@@ -164,6 +164,13 @@ class Interp:
             return out
         if t[0] == "tuple":
             for i, el in enumerate(t[1]):
+                if el[0] == "phi" and _has_alternatives(el):
+                    out = []
+                    for cond, tt in ((el[1], el[2]), (("not", el[1]), el[3])):
+                        sibs = list(t[1])
+                        sibs[i] = tt
+                        out.extend(self.expand_cases(pc + (cond,), ("tuple", tuple(sibs))))
+                    return out
                 if el[0] == "cases":
                     out = []
                     for rpc, tt in el[1]:
@@ -354,8 +361,29 @@ class Interp:
                     out.add(n.id)
         return out
 
+    def _literal_elements(self, it):
+        if it[0] in ("tuple", "list"):
+            return list(it[1])
+        if is_const(it) and isinstance(it[1], tuple):
+            return [C(x) for x in it[1]]
+        if it[0] == "listobj":
+            h = self.heap[it[1]]
+            if not h["dyn"]:
+                return list(h["elts"])
+        return None
+
     def _for(self, s, st, act):
         it = self._eval(s.iter, st, act)
+        elts = self._literal_elements(it)
+        if elts is not None and len(elts) <= 16 and not s.orelse and not any(
+                isinstance(n, (ast.Continue, ast.Break)) for b in s.body for n in ast.walk(b)):
+            # a loop over a literal tuple / list is unrolled: exact, no loop abstraction needed
+            for el in elts:
+                self._assign(s.target, el, st, act, s)
+                st = self._block(s.body, st, act)
+                if st is None:
+                    return None
+            return st
         lid = self.new_id()
         self.loops[lid] = {"iter": it, "func": act.fi.fq, "lineno": s.lineno,
                            "kind": "for", "target": ast.unparse(s.target), "pc": st.pc}
@@ -834,6 +862,16 @@ class Interp:
         return parts[0] if len(parts) == 1 else _boolop("and", parts)
 
     def _cmp(self, op, a, b):
+        # comparisons distribute over conditional / multi-exit values (path sensitivity for the
+        # idiom `r = helper(); if r is not None: ...`)
+        for x, other, left in ((a, b, True), (b, a, False)):
+            if x[0] == "cases" and len(x[1]) <= 12:
+                return mk_cases((pc, self._cmp(op, t, other) if left else self._cmp(op, other, t))
+                                for pc, t in x[1])
+            if x[0] == "phi":
+                u = self._cmp(op, x[2], other) if left else self._cmp(op, other, x[2])
+                v = self._cmp(op, x[3], other) if left else self._cmp(op, other, x[3])
+                return u if u == v else ("phi", x[1], u, v)
         if is_const(a) and is_const(b):
             try:
                 x, y = a[1], b[1]
@@ -885,8 +923,11 @@ class Interp:
                 gens.append((lid, self.loops[lid]["iter"], conds))
                 continue
             lid = self.new_id()
+            # later generators are nested in the earlier ones (tells apart two generators over the
+            # same iterable, `for i, x in enumerate(f) for j, y in enumerate(f)`)
             self.loops[lid] = {"iter": it, "func": act.fi.fq, "lineno": e.lineno,
-                               "kind": "comp", "target": ast.unparse(g.target), "pc": st.pc}
+                               "kind": "comp", "target": ast.unparse(g.target),
+                               "pc": st.pc + tuple(("inloop", l) for l, _, _ in gens)}
             self._assign(g.target, ("elem", it, lid), inner, act, e)
             conds = tuple(self._eval(c, inner, act) for c in g.ifs)
             gens.append((lid, it, conds))
@@ -1160,6 +1201,15 @@ class Interp:
         return t
 
     def _isinstance(self, obj, classes):
+        # literal containers against builtin container types
+        builtin_kind = {"tuple": "builtins.tuple", "listobj": "builtins.list",
+                        "dictobj": "builtins.dict"}.get(obj[0])
+        if builtin_kind is None and is_const(obj) and isinstance(obj[1], tuple):
+            builtin_kind = "builtins.tuple"
+        if builtin_kind is not None:
+            cl = classes[1] if classes[0] in ("tuple", "list") else (classes,)
+            if all(c[0] in ("ext", "classref") for c in cl):
+                return any(c[0] == "ext" and c[1] == builtin_kind for c in cl)
         cn = self.type_name(obj) if obj[0] in ("obj", "new") else None
         if cn is None:
             return None
@@ -1335,6 +1385,15 @@ class Interp:
         return mk_cases((tuple(pc[n0:]), t) for pc, t in rets)
 
 
+def _has_alternatives(t):
+    """a conditional value whose alternatives are objects / None (worth splitting into paths)"""
+    if t[0] == "phi":
+        return _has_alternatives(t[2]) or _has_alternatives(t[3])
+    if t[0] == "cases":
+        return True
+    return t[0] in ("new", "obj") or (t[0] == "const" and t[1] is None)
+
+
 def _conj(pc):
     pc = tuple(pc)
     if len(pc) == 1:
@@ -1366,6 +1425,17 @@ def mk_cases(pairs):
     terms = {t for _, t in pairs}
     if len(terms) == 1:
         return next(iter(terms))
+    # two exits under complementary conditions (early return + fall through, if/else) are a
+    # conditional value
+    if len(pairs) == 2:
+        (p1, t1), (p2, t2) = pairs
+        p1 = tuple(c for c in p1 if c[0] != "fact")
+        p2 = tuple(c for c in p2 if c[0] != "fact")
+        if len(p1) == 1 and len(p2) == 1:
+            if p2[0] == ("not", p1[0]):
+                return ("phi", p1[0], t1, t2)
+            if p1[0] == ("not", p2[0]):
+                return ("phi", p2[0], t2, t1)
     return ("cases", pairs)
 
 
